@@ -115,7 +115,10 @@ pub fn get_rules() -> Vec<Arc<Rule>> {
 pub fn clear_rules() {
     CURRENT_RULES.lock().unwrap().clear();
     BREAKER_RULES.write().unwrap().clear();
-    BREAKER_MAP.write().unwrap().clear();
+    // a breaker notifies the listeners when it is dropped, and a listener may call back into this
+    // module: keep replaced breakers alive until the locks have been released
+    let retired = std::mem::take(&mut *BREAKER_MAP.write().unwrap());
+    drop(retired);
 }
 
 pub fn append_rule(rule: Arc<Rule>) -> bool {
@@ -141,6 +144,9 @@ pub fn append_rule(rule: Arc<Rule>) -> bool {
         .insert(Arc::clone(&rule));
     let mut breaker_map = BREAKER_MAP.write().unwrap();
     let mut breaker_rules = BREAKER_RULES.write().unwrap();
+    // a breaker notifies the listeners when it is dropped, and a listener may call back into this
+    // module: keep replaced breakers alive until the locks have been released
+    let retired = breaker_map.get(&rule.resource).cloned().unwrap_or_default();
     let rules_of_res = breaker_rules.entry(rule.resource.clone()).or_default();
     rules_of_res.insert(Arc::clone(&rule));
     let mut placeholder = Vec::new();
@@ -157,6 +163,10 @@ pub fn append_rule(rule: Arc<Rule>) -> bool {
     } else {
         breaker_map.insert(rule.resource.clone(), new_cbs_of_res);
     }
+    drop(breaker_rules);
+    drop(breaker_map);
+    drop(current_rules);
+    drop(retired);
     true
 }
 
@@ -208,6 +218,9 @@ pub fn load_rules(rules: Vec<Arc<Rule>>) -> bool {
     let start = utils::curr_time_nanos();
     let mut global_breaker_map = BREAKER_MAP.write().unwrap();
     let mut valid_breaker_map = HashMap::with_capacity(valid_rules_map.len());
+    // a breaker notifies the listeners when it is dropped, and a listener may call back into this
+    // module: keep replaced breakers alive until the locks have been released
+    let retired: Vec<_> = global_breaker_map.values().flatten().cloned().collect();
 
     // build global_breaker_map according to valid rules
     for (res, rules) in valid_rules_map.iter() {
@@ -236,6 +249,7 @@ pub fn load_rules(rules: Vec<Arc<Rule>>) -> bool {
     *global_rule_map = rule_map;
     drop(global_rule_map);
     drop(global_breaker_map);
+    drop(retired);
     logging::debug!(
         "[CircuitBreakerTrait load_rules] Time statistic(ns) for updating flow rule, time cost {}",
         utils::curr_time_nanos() - start
@@ -255,6 +269,9 @@ pub fn load_rules_of_resource(res: &String, rules: Vec<Arc<Rule>>) -> Result<boo
     let rules: HashSet<_> = rules.into_iter().collect();
     let mut global_rule_map = CURRENT_RULES.lock().unwrap();
     let mut global_breaker_map = BREAKER_MAP.write().unwrap();
+    // a breaker notifies the listeners when it is dropped, and a listener may call back into this
+    // module: keep replaced breakers alive until the locks have been released
+    let retired = global_breaker_map.get(res).cloned().unwrap_or_default();
     // clear resource rules
     if rules.is_empty() {
         global_rule_map.remove(res);
@@ -264,6 +281,9 @@ pub fn load_rules_of_resource(res: &String, rules: Vec<Arc<Rule>>) -> Result<boo
             "[CircuitBreakerTrait] clear resource level rules, resource {}",
             res
         );
+        drop(global_breaker_map);
+        drop(global_rule_map);
+        drop(retired);
         return Ok(true);
     }
     // load resource level rules
@@ -303,6 +323,9 @@ pub fn load_rules_of_resource(res: &String, rules: Vec<Arc<Rule>>) -> Result<boo
     }
 
     global_rule_map.insert(res.clone(), rules);
+    drop(global_breaker_map);
+    drop(global_rule_map);
+    drop(retired);
     logging::debug!(
         "[CircuitBreakerTrait onResourceRuleUpdate] Time statistics(ns) for updating circuit breaker rule, timeCost: {}",
         utils::curr_time_nanos() - start
@@ -378,7 +401,10 @@ pub fn remove_circuit_breaker_generator(s: &BreakerStrategy) -> Result<()> {
 pub fn clear_rules_of_resource(res: &String) {
     BREAKER_RULES.write().unwrap().remove(res);
     CURRENT_RULES.lock().unwrap().remove(res);
-    BREAKER_MAP.write().unwrap().remove(res);
+    // a breaker notifies the listeners when it is dropped, and a listener may call back into this
+    // module: keep replaced breakers alive until the locks have been released
+    let retired = BREAKER_MAP.write().unwrap().remove(res);
+    drop(retired);
 }
 
 pub fn calculate_reuse_index_for(
